@@ -269,7 +269,7 @@ UNITS = [{
     'file': 'src/vm/heap.rs',
     'wrap': ['struct Heap'],
     'wraps_types': ['Heap'],
-    'uses_types': ['VCell', 'Cell', 'Continuation', 'Lambda', 'RcDeref', 'RcAsRef', 'Vector', 'LexicalEnvironment', 'VectorView', 'EnvView'],
+    'uses_types': ['VCell', 'Cell', 'Continuation', 'Lambda', 'BindingSource', 'RcDeref', 'RcAsRef', 'Vector', 'LexicalEnvironment', 'VectorView', 'EnvView'],
     'prelude': PRELUDE + heap_mark.MARK_PRELUDE,
     'fns': {
         # f64 arithmetic in the growth policy: contract assumed (Kani-bounded harness heap_grow spot-checks it)
